@@ -291,15 +291,13 @@ def _exc_obs(e, fsmap):
     if n == 'ReadError':
         idx = fsmap.get(str(e.path), -1)
         if idx == -1:
-            for fp, i in fsmap.items():
-                if str(e.path).startswith(fp + os.sep):
-                    idx = i
+            idx = fsmap.below(e.path)
         return ['read'], idx, e.errno
     if n == 'VerifyFileSizeError':
         return ['verifyFileSize', e.actual_size, e.expected_size], fsmap.get(str(e.filepath), -1), None
     if n == 'VerifyIsDirectoryError':
         # names the path argument as it was given (trailing separator, pathlib object)
-        return ['verifyIsDir'], fsmap.get(os.path.normpath(str(e.path)), -1), None
+        return ['verifyIsDir'], fsmap.get(str(e.path), -1), None
     if n == 'MetainfoError':
         return ['metainfo'], None, None
     if n == 'PathError':
@@ -311,18 +309,14 @@ def _do_check(torf, t, s, top, step):
     """one verify_filesize() run; returns the observation in the driver's format (+ 'which')"""
     form = step.get('top', 'same')
     arg = top + os.sep if form == 'slash' else pathlib.Path(top) if form == 'pathlib' else top
-    fsmap, keymap = {}, {}
-    if isinstance(s['name'], str):
-        for i, f in enumerate(snap_listed(s)):
-            fp = str(pathlib.Path(top, *f['path']))
-            fsmap[fp] = i
-            keymap[(fp, str(pathlib.Path(s['name'], *f['path'])))] = i
+    from harness.impl import c20path
+    fsmap = c20path.PathIndex(top, s['name'], snap_listed(s) if isinstance(s['name'], str) else [])
     cb, raises = step.get('cb'), bool(step.get('raises'))
     calls = []
 
     def callback(tt, fs, tp, done, total, exc):
         eo = _exc_obs(exc, fsmap) if exc is not None else (None, None, None)
-        idx = keymap.get((str(fs), str(tp)), -1)
+        idx = fsmap.pair(fs, tp)
         okargs = (tt is t and isinstance(done, int) and isinstance(total, int)
                   and (exc is None or isinstance(exc, torf.TorfError))
                   and (exc is None or eo[1] in (idx, None)))
